@@ -719,6 +719,9 @@ def prof_C16(d, rng):
     d["p_cleanup_fail"] = rng.choice([0.0, 0.2])
     d["autoretry"] = False
     d["hook_interrupts"] = rng.random() < 0.2
+    d["hostile_undefined"] = d["hostile"] and rng.random() < 0.5
+    if d["hostile_undefined"] and d.get("p_undefined", 0) == 0:
+        d["p_undefined"] = 0.1
 
 
 def prof_C17(d, rng):
